@@ -17,10 +17,6 @@ import (
 
 type vKey struct{ n int }
 
-type vTagHook struct{ tag string }
-
-func (h vTagHook) Run(e *Event, l Level, msg string) { e.Str("hook", h.tag) }
-
 // vCtxHook reports what GetCtx returns at hook time.
 type vCtxHook struct{ seen *[]interface{} }
 
@@ -284,39 +280,6 @@ func VH_C05_L7_own_ctx() {
 }
 
 // ---- differential trees: every node must behave as if it had been built alone ----
-
-// vDerive applies derivation op k (with fixed, distinguishable arguments).
-func vDerive(l Logger, k int, tag string) Logger {
-	switch k {
-	case 0:
-		return l.With().Str("f"+tag, tag).Logger()
-	case 1:
-		return l.Hook(vTagHook{"h" + tag})
-	case 2:
-		return l.Level(DebugLevel)
-	case 3:
-		return l.Sample(nil)
-	case 4:
-		c := l.With().Logger()
-		c.UpdateContext(func(c Context) Context { return c.Str("u"+tag, tag) })
-		return c
-	case 5:
-		return l.With().Int("n"+tag, 7).Bool("b"+tag, true).Logger()
-	}
-	return l
-}
-
-func vEmit(l Logger) []byte {
-	w := &vWriter{}
-	o := l.Output(w)
-	o.Info().Str("own", "x").Msg("m")
-	if len(w.calls) != 1 {
-		return nil
-	}
-	return w.calls[0].buf
-}
-
-const vOps = 6
 
 // Tree: root -> a (op1) -> {b (op2), c (op3)}; all nodes created first, siblings extended,
 // then every node emits; each line must equal the line of the same path built alone.
